@@ -64,6 +64,7 @@ MUTANTS = [
     ("jsonld-expanded-synonym-without-prefix", "Writers.tla", "[k \\in 1..Len(e) |-> <<e[k][1], <<IF expand THEN \"pdict\" ELSE \"str\", e[k][2]>>>>]",
      "[k \\in 1..Len(e) |-> <<e[k][1], IF expand /\\ k > 1 THEN <<\"other\">> ELSE <<IF expand THEN \"pdict\" ELSE \"str\", e[k][2]>>>>]", "other",
      ("mc/MC_IO.tla", "ISpec", {"FoldMap": "<- Fold", "DefaultDelim": "<- MCDefaultDelim", "MaxRecs": 2}), ["Inv_C14"], {}),
+    ("bridge-index-forgets-prefix-synonyms", "Conv.tla", "[c EXCEPT !.pm   = PutAll(@, AllP(r), r.u),", "[c EXCEPT !.pm   = PutAll(@, {r.p}, r.u),", "world", "Incr", [], {"MaxOps": 2}),
     # the world with files (System.tla): snapshot semantics, frame of the I/O steps, C14 along histories
     ("read-gives-current-source", "System.tla", "LET f == files[j]  r == ReadFile(f) IN",
      "LET f == files[j]  r == ReadFile([f EXCEPT !.doc = DocOf(f.fmt, f.syn, f.expand, convs[f.srci])]) IN", "world", "System", [], {"MaxSteps": 4, "MaxConvs": 2}),
